@@ -1,9 +1,11 @@
 //! pvc-enc: checks C01, C06, C19.  usage: pvc-enc <Cxx> --tier quick|thorough [--replay f] [--only family]
 
+pub mod binfhe;
 pub mod c01;
 pub mod c06;
 pub mod c19;
 pub mod enc_util;
+pub mod objs;
 
 use pvc_engine::{Run, load_replay, parse_args};
 
